@@ -18,7 +18,8 @@ fi
 case "$ID" in
   C14|C15)                 RULES=r2,r3,r4 ;;     # E3: sync shim + plain-access instrumentation (+ clock)
   C16)                     RULES=r2,r6 ;;        # E4: file-system shim
-  C03|C04|C08|C12|C13)     RULES=none ;;         # E1 at generator level: hooks only
+  C12)                     RULES=r2 ;;           # E1 + a few runs through the public Check on the virtual clock
+  C03|C04|C08|C13)         RULES=none ;;         # E1 at generator level: hooks only
   *)                       RULES=r1,r2,r5 ;;     # E2 through the public Check: PRNG seam/seed observer, clock, buffer observer
 esac
 MAIN=./harness/cmd/vcheck
